@@ -59,6 +59,22 @@ class C06(Property):
                         k = rng.randrange(len(bl[i]) + 1)
                         bl[i] = bl[i][:k] + rng.choice([b"\xe9", b"\xff", b"\xe2\x82", b"caf\xe9.wav"]) + bl[i][k:]
             cases.append(Case("c06 " + " ".join(hexs(l) for l in bl), corr=False, tags=(tag,)))
+        # a rejected line in one section, then records of ANOTHER section that later lines depend on (the game mode read by slider
+        # paths and timing lines, the sample defaults, the slider multiplier), then lines of the first section again: what a
+        # rejected line may have latched is visible only in what comes after the excursion - including in the computed curves
+        # (seeds C06-k, C06-l)
+        for _ in range(120 if tier == "quick" else 4000):
+            mode = rng.randint(0, 3)
+            bad = rng.choice(["256,192,500,64,0", "x,y", "1,2", "64,64,700,2,0,B|1:1|x:y,1,10", "10,10,10,1,0,0:0:0:0:x:y:z:extra:", "0,0,0,12,0,abc"])
+            badg = rng.choice(["Mode: 7", "Mode: 1.0", "Mode:", "Mode: taiko", "SampleSet: 9x", "StackLeniency: abc", "Mode: -0", "Mode : 3 3"])
+            ls = ["osu file format v14", "", "[General]", f"Mode: {rng.choice([0, mode])}", "", "[HitObjects]"]
+            ls += rng.sample([bad, "64,64,100,1,0,0:0:0:0:", "128,64,300,5,0,0:0:0:0:", "256,192,400,12,0,900,0:0:0:0:"], rng.randint(1, 3))
+            ls += ["", "[General]", rng.choice([badg, f"Mode: {mode}", badg]), rng.choice([f"Mode: {mode}", "SampleSet: Soft", badg]), "",
+                   "[TimingPoints]", "0,400,4,1,0,100,1,0", rng.choice(["500,-50,4,2,1,60,0,1", "500,x,4", "500,-5000,4,1,0,100,0,0"]), "",
+                   "[HitObjects]", bad if rng.random() < 0.4 else "192,64,2000,1,0,0:0:0:0:",
+                   f"64,64,2500,{rng.choice([2, 6])},0,C|96:160|160:32|224:160|288:64,1,{rng.choice([0, 200, 90])}",
+                   "192,64,3000,1,0,0:0:0:0:", f"100,100,3500,2,0,{rng.choice(['B|150:150|200:100', 'P|150:150|200:100', 'L|200:100'])},2,120", ""]
+            cases.append(Case("c06 " + " ".join(hexs(l.encode()) for l in ls), corr=False, tags=("excursion-between-sections",)))
         for f in bundled_files()[: (3 if tier == "quick" else 100)]:
             ls = open(f, "rb").read().decode("utf-8", "replace").replace("\r", "").split("\n")
             for _ in range(2 if tier == "quick" else 10):
